@@ -544,6 +544,7 @@ static mut ABORT_PATH: [u8; 512] = [0; 512];
 /// Records the replay text of the execution about to run (cheap: one memcpy).
 #[inline]
 pub fn set_breadcrumb(bytes: &[u8]) {
+    HEARTBEAT.fetch_add(1, std::sync::atomic::Ordering::Relaxed);
     let n = bytes.len().min(CRUMB_CAP);
     unsafe {
         let dst = std::ptr::addr_of_mut!(CRUMB) as *mut u8;
@@ -1198,4 +1199,44 @@ where
         }
     }
     Ok(())
+}
+
+/// Caps the address space of this process (RLIMIT_AS).  An execution that makes the code under test
+/// allocate without bound (a `read_to_end` that never sees end of file, a queue that only grows) then
+/// dies of an allocation failure - which the breadcrumb handler turns into a verdict - instead of
+/// taking the machine down with it.
+pub fn limit_address_space(bytes: u64) {
+    let lim = libc::rlimit { rlim_cur: bytes as libc::rlim_t, rlim_max: bytes as libc::rlim_t };
+    // SAFETY: plain libc call with a valid pointer
+    unsafe {
+        libc::setrlimit(libc::RLIMIT_AS, &lim);
+    }
+}
+
+
+static HEARTBEAT: std::sync::atomic::AtomicU64 = std::sync::atomic::AtomicU64::new(0);
+
+/// Starts a watchdog thread: if the engine leaves breadcrumbs (so executions are delimited) and no new
+/// execution starts for `secs` seconds, the execution in progress does not terminate (an unbounded
+/// loop in the code under test).  The process then dies the way an abort does - the breadcrumb is
+/// written out and the exit status is the abort status - so that the parent replays that execution in
+/// a fresh child, and dying again there is the verdict.
+pub fn start_watchdog(secs: u64) {
+    std::thread::spawn(move || {
+        let mut last = HEARTBEAT.load(std::sync::atomic::Ordering::Relaxed);
+        let mut since = std::time::Instant::now();
+        loop {
+            std::thread::sleep(std::time::Duration::from_secs(1));
+            let now = HEARTBEAT.load(std::sync::atomic::Ordering::Relaxed);
+            if now != last {
+                last = now;
+                since = std::time::Instant::now();
+                continue;
+            }
+            if now > 0 && CRUMB_LEN.load(std::sync::atomic::Ordering::Relaxed) > 0 && since.elapsed().as_secs() >= secs {
+                on_abort(0);
+                std::process::exit(ABORT_EXIT_CODE);
+            }
+        }
+    });
 }
